@@ -486,12 +486,16 @@ theorem C39_counterexample_like_escapes :
     likeSpec [92, 92, 37] [92, 97, 98] = some true ∧ likeImplOld [92, 92, 37] [92, 97, 98] = some false ∧
     likeSpec [97, 92, 46, 98] [97, 46, 98] = some true ∧ likeImplOld [97, 92, 46, 98] [97, 46, 98] = some false ∧
     likeSpec [97, 92, 46, 98] [97, 92, 99, 98] = some false ∧
-    likeImplOld [97, 92, 46, 98] [97, 92, 99, 98] = some true := by decide
+    likeImplOld [97, 92, 46, 98] [97, 92, 99, 98] = some true ∧
+    -- an escaped letter reached the regex as the escape sequence `\a` (the bell character)
+    likeSpec [99, 92, 97] [99, 97] = some true ∧ likeToRegexOld [99, 92, 97] = [94, 99, 92, 97, 36] := by
+  decide
 
 theorem C39_fixed_like_escapes :
     likeImpl [92, 92, 37] [92, 97, 98] = some true ∧ likeImpl [92, 92, 37] [92, 37] = some true ∧
     likeImpl [97, 92, 46, 98] [97, 46, 98] = some true ∧
-    likeImpl [97, 92, 46, 98] [97, 92, 99, 98] = some false := by decide
+    likeImpl [97, 92, 46, 98] [97, 92, 99, 98] = some false ∧
+    likeImpl [99, 92, 97] [99, 97] = some true := by decide
 
 /-! ### Agreement on the patterns made of ordinary characters and `%` -/
 
@@ -536,9 +540,22 @@ theorem likeToRegexGo_plain (p : List Nat) (hp : PlainPct p) (out : List Nat) :
       have := ih hrest (42 :: 46 :: out)
       simp [trC, this]
 
+theorem endsEscaped_plain (p : List Nat) (hp : PlainPct p) : endsEscaped p false = false := by
+  induction p with
+  | nil => rfl
+  | cons c rest ih =>
+    have hrest : PlainPct rest := fun d hd => hp d (List.mem_cons_of_mem _ hd)
+    have hc : c ≠ 92 := by
+      rcases hp c (List.mem_cons_self ..) with h | h
+      · exact (plain_facts c h).2.2.2.2.2.2.2.2.2.2.2.2.1
+      · subst h; decide
+    have hb : (c == 92) = false := by simp [hc]
+    simp [endsEscaped, hb, ih hrest]
+
 theorem likeToRegex_plain (p : List Nat) (hp : PlainPct p) :
     likeToRegex p = 94 :: (p.flatMap trC ++ [36]) := by
   unfold likeToRegex
+  simp only [endsEscaped_plain p hp, Bool.false_eq_true, if_false]
   rw [likeToRegexGo_plain p hp]
   simp
 
